@@ -1,4 +1,15 @@
 import RV.Lemmas.CtlBlueGreen
+/-!
+# Theorems about the blue-green control planes (Deployment, CloneSet) and the HPA helper
+(attached to C01, C05, C06, C09, C11)
+
+Every statement quantifies over every abstract world (workload with any settings / annotations / status, any list
+of ReplicaSets, any lists of HPAs), every BatchRelease (UID, plan, current batch, partition) and every API fault of
+the call (k-th write fails, Get fails, HPA Lists fail).  `…_partial` theorems carry the explicit guard of a known
+finding as hypothesis; the matching `…_full_FALSE` theorem shows the full-strength statement fails on the unchanged
+code.  Model: `RV.CtlBlueGreen`; oracles: `RV.Oracle.CtlBlueGreen` (the same `Bool` functions the driver evaluates on
+the implementation's output).
+-/
 namespace RV.Props.CtlBlueGreen
 open RV.Arith IntOrPct RV.CtlBlueGreen RV.Oracle.CtlBlueGreen RV.Lemmas.CtlBlueGreen
 
@@ -2164,5 +2175,192 @@ theorem idempotent_partial (kind : Kind) (op : Op) (w : World) (br : BR) (o3 o4 
             · exact fin0 o3.world (hshape.2 hp hex) hfin
           · rw [hshape.1 wl4 hw4 hp] at hr; cases hr
   · left; left; exact hok
+
+/-! ## witnesses: the full-strength statements are false on the unchanged code -/
+
+def st (r rd u a ur : Int) : Status := { replicas := r, ready := rd, updated := u, available := a, updatedReady := ur }
+
+/-- the user's settings of the witnesses: maxSurge 25%, maxUnavailable 25%, minReadySeconds 0, progressDeadline 600 -/
+def userSetting : Setting :=
+  { maxUnavailable := some (pct 25), maxSurge := some (pct 25), minReadySeconds := 0, progressDeadlineSeconds := some 600 }
+
+/-- a Deployment as `Initialize` of BatchRelease 0 left it (10 replicas, all pods ready, 3 updated) -/
+def wlInitialised : Workload :=
+  { replicas := some 10, deleting := false, paused := false, minReadySeconds := maxReady,
+    progressDeadlineSeconds := some maxProgress, stype := .expected,
+    ru := some { maxSurge := some (pct 50), maxUnavailable := some (int 0) }, partition := none,
+    saved := .some userSetting, ctl := .uid 0, stableLabel := true, status := st 13 13 3 10 0 }
+
+def brOf (uid : Nat) : BR := { uid := uid, batches := [pct 50, pct 100], currentBatch := 0, partitioned := false }
+
+def worldOf (wl : Workload) (v2 v1 : List HPA) : World := { wl := some wl, rss := [], hpaV2 := v2, hpaV1 := v1 }
+
+def theHPA (k : Nat) : HPA := { av := .same, kindSame := true, name := some k }
+
+def outOf : Out CallOut → CallOut
+  | .val o => o
+  | .panic => ⟨default, .err, 0, none⟩
+
+/-- **`savedMinReadyZero`** — BatchRelease 1 initialises a workload that still carries the settings BatchRelease 0
+    saved (`minReadySeconds: 0`): the saved value becomes `MaxReadySeconds`, which `Finalize` will later "restore". -/
+theorem init_keeps_saved_full_FALSE :
+    let w := worldOf wlInitialised [] []
+    gSavedZero (brOf 1) wlInitialised = true ∧
+    initKeepsSaved w (outOf (cpInitialize .deployment w (brOf 1) noFault)) = false ∧
+    invPreserved .deployment ⟨userSetting, .expected⟩ w (outOf (cpInitialize .deployment w (brOf 1) noFault)) = false := by
+  decide
+
+/-- **`origRecreate`** — a Deployment whose strategy type was `Recreate` (here: "not RollingUpdate"): `Initialize`
+    has set the type to `RollingUpdate`, and a successful `Finalize` leaves it there. -/
+theorem finalize_restores_type_full_FALSE :
+    let wl := { wlInitialised with status := st 10 10 10 10 0 }
+    let w := worldOf wl [] []
+    let o : Orig := ⟨userSetting, .other⟩
+    gOrigType .deployment o = true ∧ inv .deployment o w = true ∧
+    finalizeRestoresType .deployment o w (brOf 0) (outOf (cpFinalize .deployment w (brOf 0) noFault)) = false := by
+  decide
+
+/-- the same through a whole history: fresh `Recreate` Deployment ; `Initialize` ; `Finalize` — the type is not back -/
+def wlRecreate : Workload :=
+  { wlInitialised with
+    saved := .none, ctl := .none, stype := .other, ru := none, minReadySeconds := 0,
+    progressDeadlineSeconds := some 600, paused := true, status := st 10 10 10 10 0 }
+
+example :
+    (run .deployment (worldOf wlRecreate [] []) [.call .init (brOf 0) noFault, .call .fin (brOf 0) noFault]).map
+      (fun w => w.wl.map (fun wl => (wl.stype, wl.saved, wl.paused))) = some (some (SType.expected, Saved.none, false)) := by
+  decide
+
+/-- **`hpaListFault`** — `Finalize` on a restored Deployment while the List of `autoscaling/v1` HPAs fails: it reports
+    success and the HPA keeps pointing at `wl-DisableByRollout`. -/
+theorem finalize_restores_hpa_full_FALSE :
+    let wl := { wlInitialised with saved := .none, ctl := .none, status := st 10 10 10 10 0 }
+    let w := worldOf wl [] [theHPA 1]
+    let f : Fault := { noFault with listV1 := true }
+    gListFault f = true ∧
+    finalizeRestoresHPA w (brOf 0) (outOf (cpFinalize .deployment w (brOf 0) f)) = false := by
+  decide
+
+/-- **`deployFinalizeRetry`** (release) — `Finalize` of a Deployment that was paused by the webhook but never
+    initialised: success is reported and the Deployment stays paused, stable-revision label included. -/
+theorem finalize_releases_full_FALSE_deployment :
+    let wl := { wlInitialised with saved := .none, ctl := .none, paused := true, status := st 10 10 10 10 0 }
+    let w := worldOf wl [] []
+    gRestoredDeploy .deployment wl = true ∧
+    finalizeReleases .deployment w (brOf 0) (outOf (cpFinalize .deployment w (brOf 0) noFault)) = false := by
+  decide
+
+def wlCloneSet : Workload :=
+  { wlInitialised with
+    partition := some (pct 100), progressDeadlineSeconds := none,
+    saved := .some { userSetting with progressDeadlineSeconds := none }, status := st 10 10 0 10 10 }
+
+/-- **`csPartitionKept`** — `Finalize` of a CloneSet before any `UpgradeBatch`: the partition `100%` the webhook set
+    is still there after the successful call. -/
+theorem finalize_releases_full_FALSE_cloneSet :
+    let w := worldOf wlCloneSet [] []
+    gCsPartition .cloneSet wlCloneSet = true ∧
+    finalizeReleases .cloneSet w (brOf 0) (outOf (cpFinalize .cloneSet w (brOf 0) noFault)) = false := by
+  decide
+
+/-- **`deployFinalizeRetry`** (wait) — the second `Finalize` attempt on a Deployment: 10 of 13 pods available, 3 updated —
+    the first attempt restored the settings and asked for a retry; the second reports success. -/
+theorem finalize_done_means_ready_full_FALSE :
+    let w := worldOf wlInitialised [] []
+    let o1 := outOf (cpFinalize .deployment w (brOf 0) noFault)
+    let o2 := outOf (cpFinalize .deployment o1.world (brOf 0) noFault)
+    o1.res = .retry ∧ o2.res = .ok ∧
+    (match o1.world.wl with
+     | some wl1 => gRestoredDeploy .deployment wl1
+     | none => false) = true ∧
+    finalizeDoneMeansReady .deployment o1.world (brOf 0) o2 = false := by
+  decide
+
+/-- … hence repeating the call does not end where the undisturbed call ended, and is not idempotent -/
+theorem retry_converges_full_FALSE_finalize :
+    let w := worldOf wlInitialised [] [theHPA 1]
+    let o3 := outOf (cpFinalize .deployment w (brOf 0) noFault)
+    let o4 := outOf (cpFinalize .deployment o3.world (brOf 0) noFault)
+    gFinalizeWaitFails .deployment .fin w (brOf 0) = true ∧
+    retryConverges o4 o3 = false ∧ idempotent .fin (brOf 0) o3 o4 = false := by
+  decide
+
+def wlUser : Workload :=
+  { wlInitialised with
+    saved := .none, ctl := .none, minReadySeconds := 0, paused := true,
+    progressDeadlineSeconds := some 600, ru := some ⟨some (pct 25), some (pct 25)⟩ }
+
+/-- **`hpaListFault`** (Initialize) — the List of `autoscaling/v2` HPAs fails during `Initialize`: the workload is
+    taken under control with its HPA still active, and no later attempt disables it. -/
+theorem retry_converges_full_FALSE_listFault :
+    let w := worldOf wlUser [theHPA 0] []
+    let f : Fault := { noFault with listV2 := true }
+    let o1 := outOf (cpInitialize .deployment w (brOf 0) f)
+    let o2 := outOf (cpInitialize .deployment o1.world (brOf 0) noFault)
+    let o3 := outOf (cpInitialize .deployment w (brOf 0) noFault)
+    gListFault f = true ∧ o1.res = .ok ∧ retryConverges o2 o3 = false ∧
+    o2.world.hpaV2 = [theHPA 0] ∧ o3.world.hpaV2 = [theHPA 1] := by
+  decide
+
+/-- **`hpaNoApiVersion`** — an HPA of the namespace whose `scaleTargetRef` has no `apiVersion` (it targets some other
+    workload): `Initialize` panics. -/
+theorem no_panic_full_FALSE :
+    let wl := { wlInitialised with saved := .none, ctl := .none }
+    let w := worldOf wl [] [{ av := .absent, kindSame := false, name := none }]
+    gNoApiVersion w = true ∧ panicAllowed .init w (brOf 0) = false ∧
+    (match cpInitialize .deployment w (brOf 0) noFault with
+     | .panic => true
+     | .val _ => false) = true := by
+  decide
+
+/-! ## non-vacuity (tests on literals) -/
+
+/-- a complete release on a Deployment with an HPA and a stable ReplicaSet: `Initialize` under a fault after its
+    first write, `Initialize` again, two `UpgradeBatch`es, `Finalize` while pods are not ready (retry), pods become
+    ready … the hypotheses of `finalize_restores_original` hold and its conclusion is the non-trivial one -/
+def exampleFresh : Workload :=
+  { replicas := some 10, deleting := false, paused := true, minReadySeconds := 5, progressDeadlineSeconds := some 600,
+    stype := .expected, ru := some { maxSurge := some (pct 20), maxUnavailable := some (int 1) }, partition := none,
+    saved := .none, ctl := .none, stableLabel := true, status := st 10 10 0 10 0 }
+
+def exampleWorld : World := { wl := some exampleFresh, rss := [⟨false, 0⟩, ⟨false, 0⟩], hpaV2 := [theHPA 0], hpaV1 := [] }
+
+def exampleHistory : List Ev :=
+  [.call .init (brOf 0) { noFault with write := some 1 }, .call .init (brOf 0) noFault,
+   .call .upgrade (brOf 0) noFault, .status (st 15 10 5 10 0),
+   .call .upgrade { brOf 0 with currentBatch := 1 } noFault, .status (st 20 20 10 10 0)]
+
+example : guardFree .deployment exampleWorld exampleHistory = true := by decide
+
+/-- after the history: surge `100%`, un-paused, HPA disabled, stable ReplicaSet held -/
+example : (run .deployment exampleWorld exampleHistory).map
+    (fun w => (w.wl.map (fun wl => (wl.paused, ruSurge wl.ru, wl.minReadySeconds == maxReady)), w.hpaV2, w.rss)) =
+    some (some (false, some (pct 100), true), [theHPA 1], [⟨false, maxReady⟩, ⟨false, 0⟩]) := by decide
+
+/-- `Finalize` with pods still unavailable asks for a retry; once they are available a repeated `Finalize` — here the
+    CloneSet control, which re-reads the status — reports success with everything restored -/
+example :
+    let w := outOf (match run .deployment exampleWorld exampleHistory with
+      | some w => .val ⟨w, .ok, 0, none⟩
+      | none => .panic)
+    (outOf (cpFinalize .deployment w.world { brOf 0 with currentBatch := 1 } noFault)).res = .retry := by decide
+
+example : finalizeDone exampleWorld (brOf 0) ⟨exampleWorld, .ok, 0, none⟩ = true := by decide
+
+/-- `UpgradeBatch` really writes (the C01 theorems are not about no-ops only) -/
+example : (outOf (cpUpgradeBatch .deployment (worldOf wlInitialised [] [])
+    { brOf 0 with currentBatch := 1 } noFault)).writes = 1 := by decide
+
+/-- the hypotheses of `exposure_within_plan` on the example: bound 5 = what batch `50%` of 10 plans -/
+example : expInv .deployment 5 exampleWorld = true ∧
+    progressRun .deployment 5 exampleWorld (exampleHistory.take 4) = true := by decide
+
+/-- `retry_converges_partial` on a concrete faulty attempt that really is cut short and really is completed -/
+example :
+    let f : Fault := { noFault with write := some 1 }
+    let o1 := outOf (cpInitialize .deployment exampleWorld (brOf 0) f)
+    let o2 := outOf (cpInitialize .deployment o1.world (brOf 0) noFault)
+    let o3 := outOf (cpInitialize .deployment exampleWorld (brOf 0) noFault)
+    o1.res = .err ∧ o1.writes = 1 ∧ o2.res = .ok ∧ o2.writes = 2 ∧ retryConverges o2 o3 = true := by decide
 
 end RV.Props.CtlBlueGreen
